@@ -58,11 +58,13 @@ NInit(s, p, v) ==
       [] s = "Vidya" -> VidyaInit(p[1], v)
       [] s = "TR" -> TRInit(v)
       [] s = "HeikinAshi" -> HAInit(v)
-      [] s \in {"Integral0", "ADI0"} -> FxZero
+      [] s = "Integral0" -> FxZero
+      [] s = "ADI0" -> <<FxZero, FxZero>>          \* running sum, accumulated conditioning of its terms
       [] OTHER -> <<>>
 
-\* magnitude of a candle's prices
-CMag(c) == FxMax(FxMax(FxAbs(c.o), FxAbs(c.h)), FxMax(FxAbs(c.l), FxAbs(c.c)))
+\* The code evaluates CLV as (2 c - l - h) / (h - l): the numerator is a difference of price-sized quantities rounded at
+\* price scale, so a term clv * v carries an absolute error of up to a few eps * P / (h - l) * v (quotient rule, DESIGN 4)
+CLVAllow(cond) == FxMul(FxMulInt(EPS, 8), cond)
 \* magnitude of one input of subject s
 InMag(s, x) == IF s = "VWMA" THEN FxMax(FxAbs(x[1]), FxAbs(x[2]))
                ELSE IF s \in {"ADI", "ADI0"} THEN FxAbs(x.v)            \* |clv| <= 1, so a term is at most the volume
@@ -88,7 +90,8 @@ NExpect(s, p, h, r, x, t, M) ==
       [] s = "MeanAbsDev"   -> fin(MeanAbsDevDef(n, h), 2 * n, 8, M)       \* recomputed from the window, but around the running mean
       [] s = "MedianAbsDev" -> fin(MedianAbsDevDef(n, h), 2 * n, 0, Mw)
       [] s = "LinearVolatility" -> fin(LinVolDef(n, h), n, 8, FxMulInt(nM, 2))
-      [] s = "ADI"      -> fin(ADIDef(n, h), 2 * n, 8, nM)
+      [] s = "ADI"      -> [st |-> r, exp |-> Abs(ADIDef(n, h), FxAdd(Allow(2 * n, 8, t, nM),
+                                                                     CLVAllow(FxSum([i \in 1..n |-> CLVCond(Last(h, n)[i])]))))]
       [] s = "StDev"    -> [st |-> r, exp |-> LET v == VarDef(n, h)
                                                  a == Allow(2 * n, 8, t, FxSqr(M))
                                              IN  [kind |-> "sq", v |-> v, tol |-> FxAdd(a, FxMul(FxMulInt(EPS, 8), v))]]
@@ -129,6 +132,8 @@ NExpect(s, p, h, r, x, t, M) ==
                              IN  [st |-> q.st, exp |-> [kind |-> "candle", c |-> q.out, tol |-> Allow(8, 0, t, M)]]
       [] s = "Integral0" -> LET q == CumStep(r, x)
                             IN  [st |-> q.st, exp |-> Abs(q.out, Allow(1, 8, IF t < 20000 THEN t ELSE 20000, FxMulInt(M, IF t < 20000 THEN t ELSE 20000)))]
-      [] s = "ADI0" -> LET q == CumStep(r, FxMul(CLV(x), x.v))
-                       IN  [st |-> q.st, exp |-> Abs(q.out, Allow(2, 8, IF t < 20000 THEN t ELSE 20000, FxMulInt(M, IF t < 20000 THEN t ELSE 20000)))]
+      [] s = "ADI0" -> LET q == CumStep(r[1], FxMul(CLV(x), x.v))
+                           e == FxAdd(r[2], CLVCond(x))
+                       IN  [st |-> <<q.st, e>>,
+                            exp |-> Abs(q.out, FxAdd(Allow(2, 8, IF t < 20000 THEN t ELSE 20000, FxMulInt(M, IF t < 20000 THEN t ELSE 20000)), CLVAllow(e)))]
 =============================================================================
